@@ -44,13 +44,28 @@ type fakeStream struct {
 	ctx      context.Context
 	firstAt  int64
 	sendErrs int
+	stallOn  int32         // the next Send blocks until stall is closed, then fails (a client that has gone away while a message was on its way)
+	stall    chan struct{}
+	entered  chan struct{}
 }
 
 func (s *fakeStream) Send(resp *pb.GetWALStreamResponse) error {
+	if atomic.LoadInt32(&s.stallOn) == 1 {
+		select {
+		case s.entered <- struct{}{}:
+		default:
+		}
+		<-s.stall
+		s.mu.Lock()
+		s.sendErrs++
+		s.mu.Unlock()
+		return errors.New("transport is closing")
+	}
 	if atomic.LoadInt32(&s.failNow) == 1 {
 		s.mu.Lock()
 		s.sendErrs++
 		s.mu.Unlock()
+		time.Sleep(500 * time.Microsecond) // a transport error does not surface at once
 		return errors.New("transport is closing")
 	}
 	if s.delayUs > 0 {
@@ -132,12 +147,39 @@ func c26run(c *runner.Ctx) runner.Result {
 	}
 	// a replica that reconnects from the same address after closing (same map key)
 	reconnect := r.P(1, 2)
-	var sent int64
+	lateNotice := reconnect && r.Bool()
+	var sent, stalledReleases int64
+	var nsMu sync.Mutex
+	var reconnected []*fakeStream // streams re-opened from the address of a replica whose disconnect was requested
 	prodDone := make(chan struct{})
 	var lastBeforeClose sync.Map // *repl -> last k sent before its close was requested
 	go func() {
 		defer close(prodDone)
+		type pending struct {
+			rp *repl
+			ns *fakeStream
+		}
+		var pend []pending
+		release := func(all bool) {
+			keep := pend[:0]
+			for _, p := range pend {
+				p.ns.mu.Lock()
+				n := len(p.ns.got)
+				p.ns.mu.Unlock()
+				if n > 0 || all {
+					atomic.StoreInt32(&p.rp.s.failNow, 1)
+					close(p.rp.s.stall) // the blocked Send of the old stream now fails; its teardown follows
+					atomic.AddInt64(&stalledReleases, 1)
+				} else {
+					keep = append(keep, p)
+				}
+			}
+			pend = keep
+		}
+		defer release(true)
 		for k := 1; k <= nTG; k++ {
+			release(false)
+			sentEarly := false
 			for _, rp := range reps {
 				if rp.openAt == k-1 {
 					go func(rp *repl) {
@@ -148,18 +190,56 @@ func c26run(c *runner.Ctx) runner.Result {
 				}
 				if rp.closeAt == k {
 					lastBeforeClose.Store(rp, int64(k-1))
+					rp.s.mu.Lock()
+					oldSeen := len(rp.s.got) > 0
+					rp.s.mu.Unlock()
+					// (a client can only come back from the same address after its old connection is gone, and
+					// the old stream's handler has been registered since that connection was accepted: re-open
+					// only when the old stream is known to be registered, i.e. has received something)
+					if reconnect && oldSeen && lateNotice && k > 1 && !sentEarly {
+						// Deterministic schedule: the client goes away while transaction k is on its way to it.
+						// The old stream's Send of k blocks; the client comes back from the same address and is
+						// seen to receive; only then does the old Send fail and the old stream tear down.
+						rp.s.stall, rp.s.entered = make(chan struct{}), make(chan struct{}, 1)
+						atomic.StoreInt32(&rp.s.stallOn, 1)
+						b := make([]byte, 8)
+						binary.LittleEndian.PutUint64(b, uint64(k))
+						sender.Send(b)
+						atomic.StoreInt64(&sent, int64(k))
+						sentEarly = true
+						select {
+						case <-rp.s.entered:
+							ns := &fakeStream{addr: rp.s.addr, ctx: rp.s.ctx}
+							nsMu.Lock()
+							reconnected = append(reconnected, ns)
+							nsMu.Unlock()
+							go func() { _ = rs.GetWALStream(&pb.GetWALStreamRequest{}, ns) }()
+							pend = append(pend, pending{rp, ns})
+						case <-time.After(5 * time.Second):
+							// transaction k never reached the old stream: plain disconnect
+							atomic.StoreInt32(&rp.s.failNow, 1)
+							atomic.StoreInt32(&rp.s.stallOn, 0)
+							close(rp.s.stall)
+						}
+						continue
+					}
 					atomic.StoreInt32(&rp.s.failNow, 1)
-					if reconnect {
+					if reconnect && oldSeen {
 						// new stream object, same peer address
 						ns := &fakeStream{addr: rp.s.addr, ctx: rp.s.ctx}
+						nsMu.Lock()
+						reconnected = append(reconnected, ns)
+						nsMu.Unlock()
 						go func() { _ = rs.GetWALStream(&pb.GetWALStreamRequest{}, ns) }()
 					}
 				}
 			}
-			b := make([]byte, 8)
-			binary.LittleEndian.PutUint64(b, uint64(k))
-			sender.Send(b)
-			atomic.StoreInt64(&sent, int64(k))
+			if !sentEarly {
+				b := make([]byte, 8)
+				binary.LittleEndian.PutUint64(b, uint64(k))
+				sender.Send(b)
+				atomic.StoreInt64(&sent, int64(k))
+			}
 			if r.P(1, 3) {
 				time.Sleep(time.Duration(r.Intn(200)) * time.Microsecond)
 			}
@@ -172,29 +252,102 @@ func c26run(c *runner.Ctx) runner.Result {
 		res.Issues = append(res.Issues, runner.Issue{Status: "hang", Detail: fmt.Sprintf("producer blocked: %d of %d transactions sent after 90 s (replicas: %d)", atomic.LoadInt64(&sent), nTG, nRep)})
 		return res
 	}
-	// let the fan-out drain: wait until every connected replica has seen nTG or stopped changing
-	deadline := time.Now().Add(20 * time.Second)
-	for time.Now().Before(deadline) {
-		all := true
-		for _, rp := range reps {
-			if rp.closeAt >= 0 {
-				continue
+	// let the fan-out drain: wait until every connected replica has seen the last transaction (or 20 s)
+	drain := func() {
+		deadline := time.Now().Add(20 * time.Second)
+		for time.Now().Before(deadline) {
+			all := true
+			for _, rp := range reps {
+				if rp.closeAt >= 0 {
+					continue
+				}
+				rp.s.mu.Lock()
+				n := len(rp.s.got)
+				last := int64(0)
+				if n > 0 {
+					last = rp.s.got[n-1]
+				}
+				rp.s.mu.Unlock()
+				if n > 0 && last != int64(nTG) {
+					all = false
+				}
 			}
-			rp.s.mu.Lock()
-			n := len(rp.s.got)
-			last := int64(0)
-			if n > 0 {
-				last = rp.s.got[n-1]
+			if all {
+				break
 			}
-			rp.s.mu.Unlock()
-			if n > 0 && last != int64(nTG) {
-				all = false
+			time.Sleep(2 * time.Millisecond)
+		}
+	}
+	drain()
+	// Streams re-opened from the same address stay connected to the end. Once the old streams have been
+	// torn down, further transactions (numbered on from nTG+1) are committed until every re-opened stream
+	// has received one: a stream whose registration was removed by the old stream's teardown never does.
+	// Bounded progress, decided on transactions sent (2000), not on time.
+	for _, rp := range reps {
+		if rp.closeAt >= 0 && rp.closeAt < nTG { // the old stream notices its disconnect at the next message it is sent
+			select {
+			case <-rp.done:
+			case <-time.After(5 * time.Second):
 			}
 		}
-		if all {
-			break
+	}
+	nsMu.Lock()
+	recs := append([]*fakeStream{}, reconnected...)
+	nsMu.Unlock()
+	// every stream that is still connected: the replicas that never disconnect and the re-opened streams
+	type live struct {
+		s    *fakeStream
+		what string
+		base int // messages already received when the old stream of the address had been torn down
+	}
+	var lives []live
+	for i, rp := range reps {
+		if rp.closeAt < 0 {
+			lives = append(lives, live{rp.s, fmt.Sprintf("replica %d (%s), which never disconnects,", i, rp.s.addr), 0})
 		}
-		time.Sleep(2 * time.Millisecond)
+	}
+	for i, ns := range recs {
+		ns.mu.Lock()
+		n0 := len(ns.got)
+		ns.mu.Unlock()
+		lives = append(lives, live{ns, fmt.Sprintf("re-opened stream %d from %s", i, ns.addr), n0})
+	}
+	if len(lives) > 0 {
+		sends := 0
+		for sends < 3000 {
+			all := true
+			for _, l := range lives {
+				l.s.mu.Lock()
+				n := len(l.s.got)
+				l.s.mu.Unlock()
+				if n <= l.base {
+					all = false
+				}
+			}
+			if all {
+				break
+			}
+			b := make([]byte, 8)
+			binary.LittleEndian.PutUint64(b, uint64(nTG+1+sends))
+			sender.Send(b)
+			sends++
+			time.Sleep(time.Millisecond)
+		}
+		res.Count("reopened_streams_checked", int64(len(recs)))
+		res.Count("old_streams_failing_after_the_client_came_back", atomic.LoadInt64(&stalledReleases))
+		res.Count("further_transactions_committed", int64(sends))
+		for _, l := range lives {
+			l.s.mu.Lock()
+			n := len(l.s.got)
+			l.s.mu.Unlock()
+			if n <= l.base {
+				// decided on transactions committed (3000, each followed by a 1 ms pause of the committing
+				// goroutine), not on a deadline
+				res.Violation(fmt.Sprintf("%s stayed connected while %d further transactions were committed (after the old streams had been torn down) and received none of them", l.what, sends), map[string]interface{}{"received_before": l.base})
+			}
+		}
+		nTG += sends
+		drain()
 	}
 	res.Count("transactions_sent", int64(nTG))
 	res.Count("replicas", int64(nRep))
@@ -262,7 +415,7 @@ func init() {
 	register(&runner.Monitor{
 		ID:    "C26",
 		Level: "exploration",
-		Rule: "case = one -race run of the real GRPCReplicationServer + Sender with 1-6 in-memory replica streams (distinct peer addresses, Send that succeeds, delays or fails) opening and closing at seeded points (optionally reconnecting from the same address) while a producer sends 50 (thorough 200) numbered transactions through Sender.Send; seeded delays at repl.stream.closing / repl.fanout.send; distinct by (replicas, reconnect, number of closings)",
+		Rule: "case = one -race run of the real GRPCReplicationServer + Sender with 1-6 in-memory replica streams (distinct peer addresses, Send that succeeds, delays or fails) opening and closing at seeded points (optionally reconnecting from the same address) while a producer sends 50 (thorough 200) numbered transactions through Sender.Send; seeded delays at repl.stream.closing / repl.fanout.send; in half of the reconnecting cases the old stream's Send blocks until the re-opened stream from the same address has received something and fails only then (teardown of the old stream after the client came back); afterwards further transactions are committed until every stream that is still connected (never-disconnecting replicas, re-opened streams) has received one committed after the old streams were torn down (bound: 3000 transactions); every sixth case is the real-master stratum: a real instance with the background WAL loop hands its serialized transaction groups to the real Sender while it goes on with its primary writes, the streams read every byte, and the received groups must carry every written record exactly once; distinct by (replicas, reconnect, number of closings)",
 		Assumptions:     []string{"streams are in-memory fakes of grpc.ServerStream: transport behaviour of real gRPC (flow control, keepalive) is not exercised", "a disconnect is modelled as the next Send returning an error, which is how the server loop notices a vanished client"},
 		Cases:           tierCases(24, 400),
 		Batch:           1,
